@@ -310,6 +310,8 @@ def into_iter(I, v):
                 return ListIt([Ref(e, 0) for e in es], False)
             return ListIt([[Ref(e, 0), Ref(e, 1)] for e in es], False)
         v = pv
+    if isinstance(v, BoxV):
+        return into_iter(I, v.cell[0])      # Box<dyn Iterator>
     if isinstance(v, It):
         return v
     if isinstance(v, RVec):
@@ -773,3 +775,23 @@ def result_iter(I, a, n):
     is_res = r.ty.split("::")[-1] == "Result"
     has = (r.variant == 0) if is_res else (r.variant == 1)
     return ListIt([Ref(r.fields, 0)] if has else [], False)
+
+
+@model(r"^std::str::Chars::as_str$|^std::str::CharIndices::as_str$")
+def chars_as_str(I, a, n):
+    it = deref(a[0])
+    if isinstance(it, ListIt):
+        return RString(list(it.items[it.i:]))
+    if isinstance(it, CharIndicesIt):
+        return RString(list(it.chars[it.i:]))
+    raise Unsupported("as_str on %r" % (it,))
+
+
+@model(r"^<std::str::Chars as std::clone::Clone>::clone$|^<std::slice::Iter as std::clone::Clone>::clone$")
+def iter_clone(I, a, n):
+    it = deref(a[0])
+    if isinstance(it, ListIt):
+        c = ListIt(it.items, it.by_ref, it.kind)
+        c.i = it.i
+        return c
+    raise Unsupported("clone of iterator %r" % (it,))
